@@ -34,25 +34,6 @@ pub open spec fn tail_matches(rem: Seq<&u32>, lines: Seq<u32>) -> bool {
     &&& rem.len() == lines.len() - 1
     &&& forall|k: int| 0 <= k < lines.len() - 1 ==> *(#[trigger] rem[k]) == lines[k + 1]
 }
-/// the shift of one line number (authorship_log.rs, closure apply_offset): lines at or after the insertion point move by offset
-pub open spec fn shift_pt(line: int, ip: int, off: int) -> int { if line >= ip { line + off } else { line } }
-pub open spec fn fits_u32(x: int) -> bool { 0 <= x <= u32::MAX as int }
-pub open spec fn shift_spec(r: LineRange, ip: int, off: int) -> Option<LineRange> {
-    match r {
-        LineRange::Single(l) => {
-            let s = shift_pt(l as int, ip, off);
-            if fits_u32(s) { Some(LineRange::Single(s as u32)) } else { None }
-        }
-        LineRange::Range(st, en) => {
-            let a = shift_pt(st as int, ip, off);
-            let b = shift_pt(en as int, ip, off);
-            if fits_u32(a) && fits_u32(b) && a <= b {
-                if a == b { Some(LineRange::Single(a as u32)) } else { Some(LineRange::Range(a as u32, b as u32)) }
-            } else { None }
-        }
-    }
-}
-
 // ---------------------------------------------------------------- lemmas
 proof fn lemma_push_has(v: Seq<LineRange>, r: LineRange, x: int)
     ensures ranges_have(v.push(r), x) <==> (ranges_have(v, x) || lr_has(r, x))
@@ -82,25 +63,6 @@ proof fn lemma_prefix_step(s: Seq<u32>, n: int, x: int)
     }
     if s[n] as int == x { assert(0 <= n < n + 1 && s[n] as int == x); }
 }
-pub broadcast proof fn lemma_has_len0(v: Seq<LineRange>, x: int)
-    requires v.len() == 0
-    ensures !(#[trigger] ranges_have(v, x))
-{
-}
-pub broadcast proof fn lemma_has_len1(v: Seq<LineRange>, x: int)
-    requires v.len() == 1
-    ensures #[trigger] ranges_have(v, x) <==> lr_has(v[0], x)
-{
-    if lr_has(v[0], x) { assert(0 <= 0 < v.len() && lr_has(v[0], x)); }
-}
-pub broadcast proof fn lemma_has_len2(v: Seq<LineRange>, x: int)
-    requires v.len() == 2
-    ensures #[trigger] ranges_have(v, x) <==> (lr_has(v[0], x) || lr_has(v[1], x))
-{
-    if lr_has(v[0], x) { assert(0 <= 0 < v.len() && lr_has(v[0], x)); }
-    if lr_has(v[1], x) { assert(0 <= 1 < v.len() && lr_has(v[1], x)); }
-}
-
 //#item file=src/authorship/authorship_log.rs kind=enum name=LineRange derive=PartialEq,Eq
 #[derive(PartialEq, Eq)]
 pub enum LineRange {
@@ -126,86 +88,6 @@ impl LineRange {
         match self {
             LineRange::Single(l) => *l == line,
             LineRange::Range(start, end) => line >= *start && line <= *end,
-        }
-    }
-//#end
-//#item file=src/authorship/authorship_log.rs kind=fn name=overlaps impl="LineRange"
-    pub fn overlaps(&self, other: &LineRange) -> (r_: bool)
-    //@     requires lr_nonempty(*self), lr_nonempty(*other),
-    //@     ensures r_ == (exists|x: int| lr_has(*self, x) && lr_has(*other, x)),
-    {
-    //@ proof {
-    //@     let w = if lr_lo(*self) >= lr_lo(*other) { lr_lo(*self) } else { lr_lo(*other) };
-    //@     if lr_lo(*self) <= lr_hi(*other) && lr_lo(*other) <= lr_hi(*self) { assert(lr_has(*self, w) && lr_has(*other, w)); }
-    //@ }
-        match (self, other) {
-            (LineRange::Single(l1), LineRange::Single(l2)) => l1 == l2,
-            (LineRange::Single(l), LineRange::Range(start, end)) => *l >= *start && *l <= *end,
-            (LineRange::Range(start, end), LineRange::Single(l)) => *l >= *start && *l <= *end,
-            (LineRange::Range(start1, end1), LineRange::Range(start2, end2)) => {
-                start1 <= end2 && start2 <= end1
-            }
-        }
-    }
-//#end
-//#item file=src/authorship/authorship_log.rs kind=fn name=remove impl="LineRange"
-    pub fn remove(&self, to_remove: &LineRange) -> (r_: Vec<LineRange>)
-    //@     requires lr_nonempty(*self), lr_nonempty(*to_remove),
-    //@     ensures
-    //@         forall|x: int| ranges_have(r_@, x) <==> (lr_has(*self, x) && !lr_has(*to_remove, x)),
-    //@         forall|i: int| 0 <= i < r_@.len() ==> lr_nonempty(#[trigger] r_@[i]),
-    //@         forall|i: int, j: int| 0 <= i < j < r_@.len() ==> lr_hi(#[trigger] r_@[i]) + 1 < lr_lo(#[trigger] r_@[j]),
-    //@         r_@.len() <= 2,
-    {
-    //@ broadcast use lemma_has_len0, lemma_has_len1, lemma_has_len2;
-        match (self, to_remove) {
-            (LineRange::Single(l), LineRange::Single(r)) => {
-                if l == r {
-                    vec![]
-                } else {
-                    vec![self.clone()]
-                }
-            }
-            (LineRange::Single(l), LineRange::Range(start, end)) => {
-                if *l >= *start && *l <= *end {
-                    vec![]
-                } else {
-                    vec![self.clone()]
-                }
-            }
-            (LineRange::Range(start, end), LineRange::Single(r)) => {
-                if *r < *start || *r > *end {
-                    vec![self.clone()]
-                } else if *r == *start && *r == *end {
-                    vec![]
-                } else if *r == *start {
-                    vec![LineRange::Range(*start + 1, *end)]
-                } else if *r == *end {
-                    vec![LineRange::Range(*start, *end - 1)]
-                } else {
-                    vec![
-                        LineRange::Range(*start, *r - 1),
-                        LineRange::Range(*r + 1, *end),
-                    ]
-                }
-            }
-            (LineRange::Range(start1, end1), LineRange::Range(start2, end2)) => {
-                if *start2 > *end1 || *end2 < *start1 {
-                    // No overlap
-                    vec![self.clone()]
-                } else {
-                    let mut result = Vec::new();
-                    // Left part
-                    if *start1 < *start2 {
-                        result.push(LineRange::Range(*start1, *start2 - 1));
-                    }
-                    // Right part
-                    if *end1 > *end2 {
-                        result.push(LineRange::Range(*end2 + 1, *end1));
-                    }
-                    result
-                }
-            }
         }
     }
 //#end
@@ -300,49 +182,6 @@ impl LineRange {
         match self {
             LineRange::Single(l) => vec![*l],
             LineRange::Range(start, end) => (*start..=*end).collect(),
-        }
-    }
-//#end
-//#item file=src/authorship/authorship_log.rs kind=fn name=shift impl="LineRange"
-    pub fn shift(&self, insertion_point: u32, offset: i32) -> (r_: Option<LineRange>)
-    //@     ensures r_ == shift_spec(*self, insertion_point as int, offset as int),
-    {
-        // Helper: apply offset to a line number, returning None if result is negative
-        let apply_offset = |line: u32| -> (c_: Option<u32>)
-        //@     ensures c_ == (if fits_u32(shift_pt(line as int, insertion_point as int, offset as int)) { Some(shift_pt(line as int, insertion_point as int, offset as int) as u32) } else { None::<u32> }),
-        {
-            if line >= insertion_point {
-                let shifted = (line as i64) + (offset as i64);
-                if shifted >= 0 && shifted <= u32::MAX as i64 {
-                    Some(shifted as u32)
-                } else {
-                    None
-                }
-            } else {
-                Some(line)
-            }
-        };
-
-        match self {
-            LineRange::Single(l) => {
-                let new_line = apply_offset(*l)?;
-                Some(LineRange::Single(new_line))
-            }
-            LineRange::Range(start, end) => {
-                let new_start = apply_offset(*start)?;
-                let new_end = apply_offset(*end)?;
-
-                // Ensure the range is still valid
-                if new_start <= new_end {
-                    if new_start == new_end {
-                        Some(LineRange::Single(new_start))
-                    } else {
-                        Some(LineRange::Range(new_start, new_end))
-                    }
-                } else {
-                    None
-                }
-            }
         }
     }
 //#end
